@@ -130,40 +130,27 @@ theorem extrusion_rad (old : Ocs) (m : M44) :
     simp only [TransformKernels.extrusionCore_rad1, magSq, V3.dot, V3.cross, applyDir, TransformKernels.mTransformDirection,
       Ocs.ux, Ocs.uy, M44.ux, M44.uy, if_true, if_false, Bool.false_eq_true] <;> (try ring)
 
-/-- `transform_extrusion` = normalised cross product of the transformed OCS x- and y-axis + the `is_uniform` test, which
-    compares the squared LENGTHS of the two images and nothing else -/
+/-- the `is_uniform` test of `transform_extrusion`: equal squared lengths (math.isclose, abs_tol 1e-9) AND perpendicular
+    images (|dot| ≤ 1e-9 · max of the squared lengths) -/
+def uniformTest (a b : V3) : Bool :=
+  pyIsclose (magSq a) (magSq b) tol9 tol9 &&
+    decide (pyAbs (V3.dot a b) ≤ tol9 * (if magSq a < magSq b then magSq b else magSq a))
+
+/-- `transform_extrusion` = normalised cross product of the transformed OCS x- and y-axis + the `is_uniform` test -/
 theorem extrusion_spec (sqrt : Rat → Rat) (old : Ocs) (m : M44) :
     transformExtrusion sqrt old m =
       (let c := V3.cross (applyDir m old.ux) (applyDir m old.uy)
        let r := sqrt (magSq c)
        if r = 0 then .error PyErr.zeroDivision
-       else .ok (V3.smul (1 / r) c, pyIsclose (magSq (applyDir m old.ux)) (magSq (applyDir m old.uy)) tol9 tol9)) := by
+       else .ok (V3.smul (1 / r) c, uniformTest (applyDir m old.ux) (applyDir m old.uy))) := by
   unfold transformExtrusion TransformKernels.extrusionCoreS
   rw [extrusion_rad]
   obtain ⟨t, M⟩ := old
-  cases t
-  · simp only [TransformKernels.extrusionCore, Ocs.ux, Ocs.uy, Bool.false_eq_true, if_false]
-    split
-    · rfl
-    · congr 1
-      simp only [magSq, V3.dot, V3.cross, V3.smul, applyDir, TransformKernels.mTransformDirection, tol9, Prod.mk.injEq,
-        V3.mk.injEq]
-      refine ⟨⟨?_, ?_, ?_⟩, ?_⟩
-      · ring
-      · ring
-      · ring
-      · first | trivial | (congr 1 <;> (try ring))
-  · simp only [TransformKernels.extrusionCore, Ocs.ux, Ocs.uy, M44.ux, M44.uy, if_true]
-    split
-    · rfl
-    · congr 1
-      simp only [magSq, V3.dot, V3.cross, V3.smul, applyDir, TransformKernels.mTransformDirection, tol9, Prod.mk.injEq,
-        V3.mk.injEq]
-      refine ⟨⟨?_, ?_, ?_⟩, ?_⟩
-      · ring
-      · ring
-      · ring
-      · first | trivial | (congr 1 <;> (try ring))
+  cases t <;>
+    simp only [TransformKernels.extrusionCore, uniformTest, Ocs.ux, Ocs.uy, M44.ux, M44.uy, magSq, V3.dot, V3.cross, V3.smul,
+      applyDir, TransformKernels.mTransformDirection, tol9, one_mul, zero_mul, mul_one, mul_zero, add_zero, zero_add,
+      Bool.false_eq_true, if_false, if_true] <;>
+    (split <;> split <;> simp_all <;> (try (refine ⟨?_, ?_, ?_⟩ <;> ring)))
 
 /-! ## similarities -/
 
